@@ -518,7 +518,7 @@ theorem csucc_stmt (n : Nat) (L : CLevel C n) (LL : CLists C n) :
     cases body with
     | mk params variadic varTy ret generics attrs blk =>
       simp only [contOkS, contOkF, Bool.and_eq_true, kS, kF, Nat.max_le] at hok hk
-      rw [visitStmt_typeFn Pc false n _ _ s s s rfl rfl ex name params variadic varTy ret generics attrs blk rfl]
+      rw [visitStmt_typeFn_default Pc n _ _ s s s rfl rfl ex name params variadic varTy ret generics attrs blk rfl]
       simp only [pc_scope, pc_attrs, pc_node, RemoveContinue.node, pc_afterStmtNode, RemoveContinue.afterStmtNode, countS, countF, hC.cassign, hC.localKind, hC.typeStmt, hC.generic, hC.attr, Nat.zero_mul, Nat.add_zero, Nat.zero_add]
       grind
   | assign ts vs =>
